@@ -157,7 +157,11 @@ TEXT = {
     "C04": {
         "level": "Theorems (Props/C04.lean) against a declarative specification (Spec/Decision.lean: scopes as derivability closures, checks as disjunctions, "
                  "first matching policy): authorize_ok_iff, authorize_denied_iff, authorize_nomatch_iff, authorize_checksFailed_iff (precedence), failed_ids_exact, "
-                 "fragment_no_run_error; built on C05's least-model theorem. The model's verdict is the reference for AUTHSEQ cases run through the real API.",
+                 "fragment_no_run_error; built on C05's least-model theorem. Props/C04Content.lean (findings D27-D29: the verdict follows from the content, not from the path by which it arrived): "
+                 "load_eq_addAll (LoadPolicies = typing the snapshot in; checks and policies given before stay in force), authorize_after_addFact / _addRule / _addCheck / _addPolicy / _load "
+                 "(a used authorizer's second answer is the answer of a new authorizer holding the same content), verdict_of_content, closure_absorb, run_between; the repaired defects kept as proved "
+                 "witnesses (d29_pinned_accepts, second_authorize_pinned). The model's verdict is the reference for AUTHSEQ cases run through the real API, including content typed in and then loaded, "
+                 "and second Authorize calls compared with a new authorizer.",
         "note": COMMON_NOTE + "Theorems hold inside the stated fragment (WithinFragment); interning modelled at string level.",
         "technique": "Lean 4 proof of equivalence between evaluation-order model and declarative decision procedure + differential correspondence",
     },
